@@ -66,7 +66,7 @@ Theorem tr_BSWL_range_equiv : forall l : list go_endpoint_Endpoint,
   Forall (fun e => int32 (go_endpoint_Endpoint_Weight e)) l ->
   tr_BSWL_range l = model_range (map m_of l).
 Proof.
-  intros l Hl. unfold tr_BSWL_range, model_range.
+  intros l Hl. unfold tr_BSWL_range, model_range. fold_bool.
   unfold k_math_MaxInt32, k_math_MinInt32, k_endpoint_EStaticWeight, k_selector_minStaticWeightLimit, k_selector_maxStaticWeightLimit.
   match goal with |- context [go_range _ ?f _] => set (body := f) end.
   (* the loop: early return on the first endpoint that is not static-weighted, else running minimum / maximum *)
@@ -90,7 +90,7 @@ Proof.
   set (maxw := fold_left Z.max ws min_int32) in *. set (minw := fold_left Z.min ws max_int32) in *.
   destruct (maxw <=? 0) eqn:Eg; [reflexivity|].
   destruct (0 <? minw) eqn:Ep; [|reflexivity].
-  unfold go_div. replace (minw =? 0) with false by lia. cbn [negb go_guard bindc].
+  unfold go_div. replace (minw =? 0) with false by lia. cbn [negb bindc].
   unfold int32 in *.
   assert (Q : -2147483648 <= Z.quot maxw minw <= 2147483647).
   { assert (0 <= Z.quot maxw minw <= maxw); [|lia]. split; [apply Z.quot_pos; lia|].
